@@ -17,7 +17,8 @@ def build(nu, ops, c=None):
         elif kind == "perm":
             c.mode_swaps({a - 1: b - 1 for a, b in zip(lines, par)})
         elif kind == "grp":
-            sub = build(nu, par)
+            span = max(max(l) for _, l, _ in par)          # the group covers lines 1..span
+            sub = build(span, par)
             c.add(sub, 0, group=True)
     return c
 
@@ -69,12 +70,17 @@ def worker(st, ctx):
     out = {"findings": [], "drift": None, "ops": ops}
     if not ops:
         return out
+    from .circuit import structure
     c = build(nu, ops)
     U0 = c.U_full.copy()
+    s0 = structure(c)
     for name, idx in (("compress_mode_swaps", 0), ("remove_non_adjacent_bs", 1)):
         d = c.copy()
         n0 = len(d._get_circuit_spec())
         getattr(d, name)()
+        if structure(c) != s0:
+            out["findings"].append(("arg_mutated", "%s on a copy changed the component list of the original (%s)" % (name, ops)))
+            s0 = structure(c)
         U1 = d.U_full
         if U1.shape != U0.shape or np.abs(U1 - U0).max() > 1e-9:
             out["findings"].append(("rewrite_changed", "%s changed U_full of %s" % (name, ops)))
